@@ -2,6 +2,9 @@
 import os, sys
 
 import qv
+sys.path.insert(0, os.path.dirname(os.path.abspath(__file__)))
+import incgen
+import c24
 
 SCRATCH = os.path.join(qv.BUILD, "c25")
 
@@ -76,10 +79,76 @@ def classify(case, impl, model, oracle):
     return f"depth{case.split()[1]}:{e}"
 
 
+# ---------------------------------------------------------------- suite zonefull: trees of real zone files
+
+def gen_full(rng, tier):
+    """Case: incf <depth> <hex root> <hex path>=<hex content>;... <hex flattened text|-> <hex expected line|->"""
+    n = 900 if tier == "quick" else 20000
+    caseless = c24.caseless_in_tree()
+    for i in range(n):
+        t = incgen.gen_tree(rng, caseless)
+        exp = t["expected"]
+        yield incgen.case_line(t) + " " + (incgen.hx(exp.encode()) if exp != "-" else "-")
+
+
+def expected_of(case):
+    f = case.split()
+    return bytes.fromhex(f[5]).decode() if len(f) > 5 and f[5] != "-" else None
+
+
+def io_gap(impl, other):
+    """The one modelled-out behaviour: an $INCLUDE whose path names a DIRECTORY is opened
+    successfully by File::open and fails at the first read (GeneralIo, reported against the
+    directory's path); the model's file system has no directories, so it reports the open as failed.
+    Accepted only in exactly this shape: same records, then io:<P> vs open:<includer>:<line>:<P>."""
+    a, b = impl.split(" # ")[0].split(" ; "), other.split(" # ")[0].split(" ; ")
+    if a[:-1] != b[:-1] or not a[-1].startswith("err=io:") or not b[-1].startswith("err=open:"):
+        return False
+    return b[-1].split(":")[3] == a[-1].split(":")[1]
+
+
+def corr_eq_full(case, impl, model):
+    return impl == model or io_gap(impl, model)
+
+
+def oracle_ok_full(case, impl, oracle):
+    """impl = the structural expansion of the same tree (extracted spec); = the line the generator
+    computed from the abstract records when the tree is predictable; the flattened text (when there
+    is one) parses to the same record sequence."""
+    if impl in ("panic", "timeout", "crash") or " after=" in impl:
+        return False
+    if impl != oracle and not io_gap(impl, oracle):
+        return False
+    exp = expected_of(case)
+    if exp is not None and impl != exp:
+        return False
+    if case.split()[4] != "-" and not impl.endswith("# flat=same"):
+        return False
+    return True
+
+
+def nontrivial_full(case, impl, model, oracle):
+    # an $INCLUDE was followed: records from at least two different files
+    paths = {it.split(":")[0] for it in impl.split(" # ")[0].split(" ; ") if " o=" in it}
+    return len(paths) >= 2
+
+
+def classify_full(case, impl, model, oracle):
+    body = impl.split(" # ")[0].split(" ; ")
+    e = body[-1].split(":")
+    end = e[0] if e[0] != "err=syntax" else "err=syntax"
+    paths = {it.split(":")[0] for it in body if " o=" in it}
+    pred = "pred" if expected_of(case) is not None else "unpred"
+    flat = impl.split("flat=")[-1] if "flat=" in impl else "?"
+    return f"{end}:files{min(len(paths), 4)}:{pred}:flat-{flat}"
+
+
 CHECK = {
     "property": "C25",
     "props": "Props/C25.v",
-    "theorems": ["c25_stack_eq_expand", "c25_terminates", "c25_depth", "c25_context_scoping"],
+    "theorems": ["c25_stack_eq_expand", "c25_terminates", "c25_depth", "c25_context_scoping",
+                 "c25_iter_stack_eq_expand", "c25_iter_depth", "c25_full_stack_eq_expand", "c25_full_total_valid",
+                 "c25_full_include_boundary"],
     "allowed_axioms": [],
     "suites": [{
         "name": "zoneinc",
@@ -93,6 +162,24 @@ CHECK = {
                  "mini line parser (Model/ZfMini.v) vs the extracted structural expand (oracle); compared: (path, line, owner, ttl, "
                  "address) of every record in order, then the error kind/path/line/chain; non-trivial = a case with an $INCLUDE that "
                  "yields at least two events"),
+    }, {
+        "name": "zonefull",
+        "impl_bin": "impl_c25f", "extract": "Extract/ExC25f.v", "driver": "run_c25f.ml",
+        "gen": gen_full, "nontrivial": nontrivial_full, "classify": classify_full,
+        "oracle_ok": oracle_ok_full, "corr_eq": corr_eq_full,
+        "exhaustive": {"quick": False, "thorough": False},
+        "rule": ("random trees of REAL zone files (checks/incgen.py): 1..7 files in sub-directories (one with a blank in its name), generated in "
+                 "execution order by a generator that carries the parse context the property prescribes; every record type of checks/zfgen.py "
+                 "(incl. CH A, WKS, TXT, SOA, unknown types, \\# forms), $ORIGIN / $TTL in includers and included files, $INCLUDE paths relative "
+                 "with `..`, quoted / escaped, optional directive origins; presentation depends on the context: names relative to the current origin, "
+                 "`@`, omitted owner / TTL / class — biased to occur right after an include returns; parentheses, comments, CRLF, missing final line "
+                 "ending; depth limits 0..4; missing targets, re-included and cyclic files, 12 % trees with one file mutated (truncate/insert/delete/"
+                 "replace/duplicate); real zone_file::fs::Parser vs the extracted stack machine over the FULL parser model (Model/ZfInc.v + "
+                 "ZfParser.v) vs the extracted structural expansion (oracle) vs, for predictable trees, the line computed by the generator from "
+                 "the abstract records; compared record by record: path, line, owner wire, TTL, class, type, RDATA, validity, then the error kind / "
+                 "file / line:column / opened path / include chain; where a flattened equivalent text exists (every $INCLUDE replaced by the "
+                 "included text between $ORIGIN lines) the plain zone_file::Parser must yield the same record sequence from it; "
+                 "non-trivial = records from at least two files"),
     }],
     "trusted_base": [
         "Coq 8.16.1 kernel; axioms: none",
